@@ -26,7 +26,10 @@ LEVEL_TEXT = ("Machine-checked proof (Coq, closed under the global context) over
               "packet-size bound) and the bytes read back are checked directly.  Timeouts: a model of read(n) over "
               "a stream whose _read raises socket.timeout on an arbitrary schedule is proved to lose nothing across "
               "retries (C42_read_n_stream_timeouts) and is compared with the real code; read() and readline() "
-              "under exceptions are checked by the oracle only (known findings on the code as it is).")
+              "under exceptions are checked by the oracle only.  Write side under exceptions (oracle only): a "
+              "stream / a real Channel with a timeout and an exhausted peer window that raises during flush, "
+              "then recovers -- everything pending must still arrive exactly once, in order (known finding: a "
+              "flush interrupted AFTER part was accepted re-sends that part).")
 LEVEL_NOTE = ("Trusted: Coq kernel + vm_compute; hand-written model coq/Model/C42.v validated by the "
               "correspondence run; universal-newline ('U') and text decoding are outside the Coq model and are "
               "covered only by the implementation-level oracle on ASCII data (readline()/iteration without "
@@ -704,6 +707,157 @@ def timeouts_oracle(ctx, rng, n):
     return evcases
 
 
+
+# ---------------------------------------------------------------- write faults --
+def _is_subseq(a, b):
+    it = iter(b)
+    return all(x in it for x in a)
+
+
+def write_fault_case(ctx, case):
+    """the stream's _write raises socket.timeout on a schedule; the failed flush/close is retried.
+    case = (bufsize, pieces, wo, faults, only_at_start): with only_at_start a fault strikes only the FIRST _write of
+    a _write_all (nothing of that flush consumed yet); otherwise at any _write call."""
+    import socket
+    from paramiko.file import BufferedFile
+    bufsize, pieces, wo, faults, only_at_start = case
+    st = {"out": bytearray(), "wo": list(wo), "faults": list(faults), "first": False}
+
+    class Stub(BufferedFile):
+        def __init__(self):
+            BufferedFile.__init__(self)
+            self._set_mode("wb", bufsize)
+
+        def _write_all(self, raw):          # only marks the beginning of a _write_all; the real method runs
+            st["first"] = True
+            return BufferedFile._write_all(self, raw)
+
+        def _write(self, d):
+            first, st["first"] = st["first"], False
+            if st["faults"] and (first or not only_at_start):
+                if st["faults"].pop(0):
+                    raise socket.timeout()
+            c = st["wo"].pop(0) if st["wo"] else len(d)
+            k = max(1, min(c, len(d)))
+            st["out"] += bytes(d[:k])
+            return k
+
+    f = Stub()
+    desc = {"bufsize": bufsize, "pieces": list(pieces), "write_chunks": wo, "write_faults": faults,
+            "only_at_start": only_at_start}
+    written = b""
+
+    def attempt(fn):
+        for _ in range(len(faults) + 2):
+            try:
+                fn()
+                return True
+            except socket.timeout:
+                fn = f.flush            # the data of a failed buffered write() is in the buffer: retry = flush
+        return False
+
+    ok = True
+    for p_ in pieces:
+        written += p_
+        ok = attempt(lambda: f.write(p_)) and ok
+    ok = attempt(f.flush) and ok
+    try:
+        f.close()
+    except socket.timeout:
+        ok = False
+    f._closed = True
+    out = bytes(st["out"])
+    if not ok:
+        return          # the schedule never let the stream recover: nothing to say
+    if out != written:
+        if len(out) > len(written) and _is_subseq(written, out):
+            ctx.fail("flush-resends-delivered-prefix-after-exception",
+                     "a flush interrupted by an exception AFTER the stream accepted part of the data keeps the whole "
+                     "buffer: the retry delivers the accepted prefix twice", case=desc, expected=written, observed=out)
+        else:
+            ctx.fail("write-lost-after-exception",
+                     "data pending in the write buffer when the stream raised during flush never reaches the stream "
+                     "(or arrives out of order) although flush()/close() later succeed", case=desc,
+                     expected=written, observed=out)
+
+
+def channel_write_timeout_case(ctx, bufsize, pieces):
+    """END-TO-END: a REAL Channel whose peer window is exhausted and which has a timeout: flush() raises
+    socket.timeout before anything is sent; after the peer opens the window the retry must deliver everything"""
+    import socket
+    import common
+    from paramiko.channel import Channel
+    from paramiko.message import Message
+    st = _StubTransport()
+    ch = Channel(1)
+    ch._set_transport(st)
+    ch._set_window(1 << 21, 1 << 15)
+    ch._set_remote_channel(2, 0, 1 << 15)          # the peer granted no window yet
+    ch.settimeout(0.05)
+    desc = {"channel_timeout": True, "bufsize": bufsize, "pieces": list(pieces)}
+
+    def body():
+        f = ch.makefile_stdin("wb", bufsize)
+        raised = 0
+        for p_ in pieces:
+            try:
+                f.write(p_)
+            except socket.timeout:
+                raised += 1
+        try:
+            f.flush()
+        except socket.timeout:
+            raised += 1
+        m = Message()
+        m.add_int(1 << 20)
+        m.rewind()
+        ch._window_adjust(m)                        # the peer opens the window
+        ch.settimeout(2.0)
+        f.flush()
+        f.close()
+        return raised, list(st.sent)
+
+    status, val = common.with_watchdog(body, 8.0)
+    written = b"".join(pieces)
+    if status != "ok":
+        ctx.fail("channel-file-raises", "flush/close after the peer opened the window %s" %
+                 ("blocks" if status == "hang" else "raises %r" % (val,)), case=desc)
+        return
+    raised, sent = val
+    got = b"".join(e[1] for e in _wire(sent) if e[0] == "data")
+    if got != written:
+        ctx.fail("write-lost-after-exception",
+                 "data pending in the write buffer when Channel.sendall timed out during flush never reaches the "
+                 "peer although flush()/close() later succeed", case=desc, expected=written, observed=got)
+
+
+def write_faults_oracle(ctx, rng, n):
+    for j in range(n):
+        only_at_start = (j % 3 != 2)
+        bufsize = rng.choice([2, 3, 8, 16, 64, 8192, 1, 1]) if only_at_start else rng.choice([4, 16, 64, 8192])
+        base = rng.randrange(0, 200)
+        total = 0
+        pieces = []
+        for _ in range(rng.randrange(1, 7)):
+            ln = rng.choice([0, 1, 3, 7, 20, rng.randrange(0, 40)])
+            piece = bytes((base + total + i) % 251 if (base + total + i) % 251 != 10 or bufsize != 1 else 11
+                          for i in range(ln))
+            if bufsize == 1 and ln and rng.random() < 0.5:
+                piece = piece[:-1] + b"\n"
+            pieces.append(piece)
+            total += ln
+        wo = [rng.choice([1, 2, 5, 100000]) for _ in range(rng.randrange(0, 20))]
+        faults = [rng.random() < 0.4 for _ in range(rng.randrange(1, 12))]
+        case = (bufsize, pieces, wo, faults, only_at_start)
+        ctx.count(("wfault", case), nontrivial=any(faults) and total > 0,
+                  kind="write-fault-at-start" if only_at_start else "write-fault-anywhere")
+        write_fault_case(ctx, case)
+    for bs in (2, 64, 8192, 1):
+        pieces = [bytes(rng.randrange(32, 127) for _ in range(rng.randrange(1, 30))) for _ in range(rng.randrange(1, 4))]
+        ctx.count(("chan-wtimeout", bs, pieces), kind="channel-write-timeout")
+        channel_write_timeout_case(ctx, bs, pieces)
+
+
 def run(ctx):
     rng = ctx.rng
     scale = 8 if ctx.thorough else 1
@@ -734,6 +888,7 @@ def run(ctx):
     text_mode_oracle(ctx, rng, 150 * scale)
     channel_files_oracle(ctx, rng, 120 * scale)
     evcases = timeouts_oracle(ctx, rng, 200 * scale)
+    write_faults_oracle(ctx, rng, 150 * scale)
     small = [(c, i) for c, i in cases if len(c) == 8]
     bigc = [(c, i) for c, i in cases if len(c) > 8]
     def safe(fn, ty, cs, **kw):
@@ -767,6 +922,16 @@ def replay(ctx, rep):
 
     def unhex0(v):
         return bytes.fromhex(v["hex"]) if isinstance(v, dict) else v
+    if isinstance(case, dict) and "write_faults" in case:
+        c = (case["bufsize"], [unhex0(x) for x in case["pieces"]], case["write_chunks"], case["write_faults"],
+             case["only_at_start"])
+        ctx.count(("replay", c))
+        ctx.count(("replay2", c))
+        return write_fault_case(ctx, c)
+    if isinstance(case, dict) and case.get("channel_timeout"):
+        ctx.count(("replay", repr(case)))
+        ctx.count(("replay2", repr(case)))
+        return channel_write_timeout_case(ctx, case["bufsize"], [unhex0(x) for x in case["pieces"]])
     if isinstance(case, dict) and "faults" in case:
         c = (case["kind"], case["bufsize"], unhex0(case["data"]), case["read_chunks"], case["faults"], case["sizes"],
              case.get("channel_file", False))
